@@ -65,7 +65,12 @@ Lemma eqb_nat_true (a b : nat) : (a =? b)%nat = true -> a = b.
 Proof. apply Nat.eqb_eq. Qed.
 
 (* closed conjunctions of computations (split only on /\, never on =) *)
-Ltac vm_conj := intros; repeat match goal with |- _ /\ _ => split end; (vm_compute; reflexivity).
+Ltac vm_conj_rec :=
+  lazymatch goal with
+  | |- _ /\ _ => split; [vm_compute; reflexivity|vm_conj_rec]
+  | _ => vm_compute; reflexivity
+  end.
+Ltac vm_conj := intros; vm_conj_rec.
 
 (* split H : a && b && ... = true into its conjuncts *)
 Ltac andb_split H :=
